@@ -609,7 +609,9 @@ func (env *c12env) step(op Op) string {
 		if equal {
 			// field-by-field: a duplicate carries every field of its source (a copy that satisfies
 			// Equal but drops, say, the sub-second part of a date is not a copy)
-			if d1, d2 := gen.Dump(s.v), gen.Dump(cp); d1 != d2 {
+			// (dates are compared as the instants they denote: copying through time.Time normalises
+			// out-of-range seconds/nanos, which changes the representation, not the date)
+			if d1, d2 := gen.DumpNorm(s.v), gen.DumpNorm(cp); d1 != d2 {
 				env.violate("neq-fields:"+prod, fmt.Sprintf("a fresh copy made by %s differs from its source at %s (field-by-field comparison)", prod, firstDiff(d1, d2)))
 			}
 		}
